@@ -130,7 +130,8 @@ theorem view_write_frame (v : View ν α) (h : v.WF) (hn : v.leafIds.Nodup) (idx
     visiting the view through that access — i.e. in the claimed dimension order — resolves the
     tuple at row-major position `k` to offset `k` of the single leaf the view is over, for all
     `k` up to the leaf's element count: the walk is strictly increasing (`ravel_lt_of_lex`) and
-    contiguous, and spans the whole leaf.  Covers `Tensor`, `TensorRefMatrix`, `TensorRename`,
+    contiguous, and spans the whole leaf.  Covers `Tensor`, `TensorRefMatrix` over a `Matrix` and
+    over `MatrixRefTensor` of any tensor view (row major and column major), `TensorRename`,
     `TensorAccess`, `TensorTranspose` (with the repaired `map_linear_data_layout_to_transposed`,
     fix B-12) in any composition; every other adaptor reports a non-linear layout. -/
 theorem layout_linear_increasing (v : View ν α) (h : v.WF) (order : List ν)
@@ -151,7 +152,8 @@ theorem layout_linear_increasing (v : View ν α) (h : v.WF) (order : List ν)
   exact ⟨leaf, data, a, b, c, fun x y hx hy hxy => ravel_lt_of_lex _ x y hx hy hxy⟩
 
 /-- **The constructors establish the invariant.**  Every validation of the model
-    (`Tensor::from`, `TensorRefMatrix::with_names`, `TensorRange/TensorMask::from`, `from_all`,
+    (`Tensor::from`, `TensorRefMatrix::with_names` over a `Matrix` and over `MatrixRefTensor` of a tensor view,
+    `TensorRange/TensorMask::from`, `from_all`,
     `from_strict`, `from_all_strict`, `TensorIndex::from`, `TensorExpansion::from` with its stable
     sort, `TensorRename::from`, `TensorReverse::from`, `TensorAccess/TensorTranspose::try_from`,
     `TensorStack::from`, `TensorChain::from`) accepts only arguments for which the resulting view
@@ -163,6 +165,7 @@ theorem constructors_establish_wf :
     (∀ (id rows columns : Nat) (data : List α) (r c : ν) (v : View ν α),
       mkMatrix id rows columns data r c = some v → data.length ≤ usizeMax → v.WF) ∧
     (∀ (s v : View ν α), s.WF →
+      (∀ r c, mkMatrixOf s r c = some v → v.WF) ∧
       (∀ rs, mkRange s rs = some v → v.WF) ∧ (∀ rs, mkRangeStrict s rs = some v → v.WF) ∧
       (∀ rs, mkRangeAll s rs = some v → v.WF) ∧ (∀ rs, mkRangeAllStrict s rs = some v → v.WF) ∧
       (∀ ms, mkMask s ms = some v → v.WF) ∧ (∀ ms, mkMaskStrict s ms = some v → v.WF) ∧
@@ -175,7 +178,7 @@ theorem constructors_establish_wf :
       (∀ along, (∀ a, (chainLens (shapes ss) a).sum ≤ usizeMax) → mkChain ss along = some v → v.WF)) := by
   refine ⟨fun _ _ _ _ h hm => mkTensor_wf h hm, fun _ _ _ _ _ _ _ h hm => mkMatrix_wf h hm, ?_, ?_⟩
   · intro s v hs
-    exact ⟨fun _ h => mkRange_wf hs h, fun _ h => mkRangeStrict_wf hs h, fun _ h => mkRangeAll_wf hs h,
+    exact ⟨fun _ _ h => mkMatrixOf_wf hs h, fun _ h => mkRange_wf hs h, fun _ h => mkRangeStrict_wf hs h, fun _ h => mkRangeAll_wf hs h,
       fun _ h => mkRangeAllStrict_wf hs h, fun _ h => mkMask_wf hs h, fun _ h => mkMaskStrict_wf hs h,
       fun _ h => mkMaskAll_wf hs h, fun _ h => mkMaskAllStrict_wf hs h, fun _ h => mkIndex_wf hs h,
       fun _ h => mkExpansion_wf hs h, fun _ h => mkRename_wf hs h, fun _ h => mkReverse_wf hs h,
@@ -268,6 +271,21 @@ example :
       (t.mkAccess [2, 0, 1]).bind fun a => (a.mkTranspose [0, 2, 1]).map fun v =>
         (v.shape, match v.layout with | .ok l => some l | .panic _ => none)) =
     some ([(2, 2), (0, 4), (1, 2)], some (.linear [2, 1, 0])) := by decide
+
+/-- a reordered 2×3 tensor seen as a (column major) matrix seen as a tensor again: accepted, well
+    formed, and its layout names the *column* dimension first -/
+example :
+    ((mkTensor 1 [(0, 2), (1, 3)] (List.range 6)).bind fun t =>
+      (t.mkAccess [1, 0]).bind fun a => (a.mkMatrixOf 7 8).map fun v =>
+        (v.shape, (match v.layout with | .ok l => some l | .panic _ => none), v.specGet [2, 1])) =
+    some ([(7, 3), (8, 2)], some (.linear [8, 7]), some (1, 5)) := by decide
+
+example : ∀ v, ((mkTensor 1 [(0, 2), (1, 3)] (List.range 6)).bind fun t =>
+      (t.mkAccess [1, 0]).bind fun a => a.mkMatrixOf 7 8) = some v → v.WF := by
+  intro v hv
+  simp only [Option.bind_eq_some_iff] at hv
+  obtain ⟨t, ht, a, ha, hv⟩ := hv
+  exact mkMatrixOf_wf (mkAccess_wf (mkTensor_wf ht (by decide)) ha) hv
 
 /-- the legacy formula (unchanged tree) claims `[1, 0, 2]` for the same view: defect #12 -/
 example : mapLinearDataLayoutToTransposedLegacy
